@@ -342,6 +342,19 @@ Section CodecProofs.
       rewrite B, Hnew. cbn. now rewrite parse_print.
   Qed.
 
+  (* the uninterrupted save: the loader returns the new data, whatever was there before *)
+  Theorem atomic_complete : forall st f t h cs D' n st',
+      t <> f -> concat cs = print D' -> length (save_atomic h t f cs) <= n ->
+      crash_view (crash_after n (save_atomic h t f cs) st) st' ->
+      load st' f = Loaded D'.
+  Proof.
+    intros st f t h cs D' n st' Htf Hnew Hn Hv.
+    unfold crash_after in Hv. rewrite firstn_all2 in Hv by exact Hn.
+    destruct (atomic_final h t f cs st Htf) as (i & A & B & C). cbn zeta in *.
+    unfold load. erewrite view_read_durable; eauto.
+    rewrite B, Hnew. cbn. now rewrite parse_print.
+  Qed.
+
   (* first save (no previous file): the file is absent or complete *)
   Theorem atomic_crash_safe_fresh : forall st f t h cs D' n st',
       t <> f -> names st f = None -> concat cs = print D' ->
@@ -459,6 +472,12 @@ Section CodecProofs.
 
   Lemma cache_load_missing : cache_load_bytes None = Ok empty.
   Proof. reflexivity. Qed.
+
+  Lemma cache_prefix_safe_all :
+    (forall c p, strict_prefix p (print (wrap c)) -> cache_load_bytes (Some p) = Ok empty) /\
+    (forall bs, parse bs = None -> cache_load_bytes (Some bs) = Ok empty) /\
+    cache_load_bytes None = Ok empty.
+  Proof. split; [exact cache_load_prefix|]. split; [exact cache_load_unparsable|exact cache_load_missing]. Qed.
 
   (* the (in-place) cache save interrupted anywhere: old, new or empty cache, never a crash *)
   Theorem cache_inplace_crash_total : forall st f h cs j c c' n st',
